@@ -81,7 +81,7 @@ def gen_program(rng: Any) -> dict[str, Any]:
     return {"backend": rng.choice(["asyncio", "trio"]), "sched_seed": rng.randrange(1 << 30), "shuffle": rng.random() < 0.5,
             "n_instances": n_inst, "n_signals": n_sig, "tasks": tasks,
             # owner instances that all compare (and hash) equal, like value objects / frozen dataclasses
-            "equal_owners": rng.random() < 0.3, "copied_owners": rng.random() < 0.25, "falsy_owners": rng.random() < 0.2, "dataclass_events": rng.random() < 0.25}
+            "equal_owners": rng.random() < 0.3, "copied_owners": rng.random() < 0.25, "falsy_owners": rng.random() < 0.2, "dataclass_events": rng.random() < 0.25, "held_emitters": rng.random() < 0.4}
 
 
 # --------------------------------------------------------------------------- interpretation
@@ -104,6 +104,7 @@ class Run:
         self.insts: list[Any] = []
         self.gens: list[int] = []
         self.abandoned: list[Any] = []
+        self.held: dict[Any, Any] = {}
         self.crash: BaseException | None = None
 
     async def steps(self, steps: list[Any], actor: Any) -> None:
@@ -127,6 +128,11 @@ class Run:
             else:
                 _, i, a = st
                 sig = getattr(self.insts[i], a)
+                emit = sig.dispatch
+                if self.prog.get("held_emitters"):
+                    # the dispatcher keeps the bound method it obtained on its first dispatch on this channel (`emit = obj.sig.dispatch`):
+                    # it stays the channel's dispatch however many subscribers have come and gone since
+                    emit = self.held.setdefault((i, self.gens[i], a), emit)
                 self.next_eid += 1
                 ev = self.Ev(self.next_eid)
                 self.events[ev.n] = id(ev)
@@ -137,7 +143,7 @@ class Run:
                     raised = None
                     ret = None
                     try:
-                        ret = sig.dispatch(ev)
+                        ret = emit(ev)
                     except BaseException as e:
                         raised = e
                 t1 = time.time()
@@ -551,6 +557,8 @@ def check(run: Run) -> tuple[list[dict[str, Any]], dict[str, int]]:
         inc("histories_with_a_copied_owner")
     if prog.get("falsy_owners"):
         inc("histories_with_falsy_owners")
+    if prog.get("held_emitters"):
+        inc("histories_whose_dispatchers_keep_the_bound_dispatch_method")
     if prog.get("dataclass_events"):
         inc("histories_with_value_equal_unhashable_events")
     if active_subs >= 2:
